@@ -98,8 +98,15 @@ func HarnessC16Text() {
 	n := verifParam("n")
 	var lines [][]byte
 	var classes []int
+	shape := verifParam("shape") // 0: line classes by fork; 1: all comment lines; 2: #! line then comments
 	for i := 0; i < nl; i++ {
-		c := nondetChoice(5)
+		c := lcComment
+		switch {
+		case shape == 0:
+			c = nondetChoice(5)
+		case shape == 2 && i == 0:
+			c = lcShebang
+		}
 		if i == 0 {
 			verifAssume(c != lcBlank) // a leading blank line is trimmed: covered by the lead-whitespace choice
 		}
